@@ -82,8 +82,7 @@ TestEntry  == IF MirrorDone THEN "d_test" ELSE "m_acq"
 AfterTrial(w) == IF op[w] = "done_end" THEN "end" ELSE "next"
 AfterSet(w)   == IF Skipping(w) THEN "k_acq" ELSE IF cf.evo THEN "f_acq" ELSE "f_count"
 
-Init ==
-  /\ cf \in Configs
+InitRest ==     \* everything but the choice of the configuration
   /\ pc = [w \in Workers |-> IF w <= cf.nw THEN (IF cf.warm THEN "next" ELSE StartPc) ELSE "stop"]
   /\ op = [w \in Workers |-> "none"]
   /\ cur = [w \in Workers |-> 0] /\ seen = [w \in Workers |-> 0]
@@ -100,6 +99,7 @@ Init ==
   /\ pendingCnt = [s \in Workers |-> 0] /\ completedCnt = [s \in Workers |-> 0]
   /\ infeasibleCnt = [s \in Workers |-> 0] /\ best = [s \in Workers |-> 0]
   /\ delivered = {}
+Init == cf \in Configs /\ InitRest
 
 Goto(w, l) == pc' = [pc EXCEPT ![w] = l]
 
